@@ -242,6 +242,59 @@ def h11_rabbit_foreign(S):
             info=f"foreign message ({state}) ended in {out['where']}, unacknowledged: {out['unacked']}; task errors: {out['errors']}")
 
 
+def h11_rabbit_paused(S):
+    """RabbitMQ, a queue shared by two services: while worker A is saturated (its consumer paused) a message for the other
+    service arrives - it stays available, worker B runs it without waiting for A's slot to free."""
+    from fakes import amqp as fa
+    from repid import Connection, Job, Router, Worker
+    from repid.converter import BasicConverter
+
+    n_foreign = S.pick("foreign_messages", 3) + 1
+    per_consumer = S.flag("server_applies_qos_per_consumer")
+    ran_b = []
+    out = {}
+
+    async def main(loop):
+        w = World(backend="rabbit")
+        w.srv.qos_per_consumer = per_consumer
+        await w.open(queues=("shared",), record=False)
+        brb, chb, _ = fa.mk_broker(w.srv)
+        conn_b = Connection(brb)
+        ra, rb = Router(), Router()
+        # A reaches its messages_limit with one long job: its consumer is paused (and still registered) until the job is done
+
+        @ra.actor(name="ping", queue="shared", converter=BasicConverter)
+        async def a_ping():
+            await asyncio.sleep(3)
+
+        @rb.actor(name="report", queue="shared", converter=BasicConverter)
+        async def b_report(i: int):
+            ran_b.append((i, loop.time()))
+
+        await Job("ping", queue="shared", id_="p1", _connection=w.conn).enqueue()
+        wa = Worker(routers=[ra], handle_signals=[], _connection=w.conn, graceful_shutdown_time=10.0, tasks_limit=5, messages_limit=1)
+        wb = Worker(routers=[rb], handle_signals=[], _connection=conn_b, graceful_shutdown_time=1.0, tasks_limit=2, messages_limit=n_foreign)
+        ta = asyncio.create_task(wa.run())
+        await asyncio.sleep(Fraction(1, 2))            # A is busy now
+        tb = asyncio.create_task(wb.run())
+        await asyncio.sleep(Fraction(1, 10))
+        t0 = loop.time()
+        for i in range(n_foreign):
+            await Job("report", queue="shared", args={"i": i}, id_=f"f{i}", _connection=conn_b).enqueue()
+        try:
+            await asyncio.wait_for(tb, timeout=Fraction(3, 2))
+            out["b_done"] = True
+        except asyncio.TimeoutError:
+            out["b_done"] = False
+        out["t0"] = t0
+        await asyncio.wait_for(ta, timeout=10)
+
+    run_async(main)
+    S.cover("paused-neighbour")
+    S.check("foreign-messages-stay-available-to-their-worker", out["b_done"] and sorted(i for i, _ in ran_b) == list(range(n_foreign)),
+            info=f"worker B ran {ran_b} within 1.5 s of the enqueue while worker A was saturated (expected {n_foreign} jobs)")
+
+
 def h11_redis_window(S):
     """Redis: foreign messages filling one or more fetch windows in front of an own job do not hide it."""
     from repid import Job, Router, Worker
@@ -340,6 +393,11 @@ HARNESSES = [
             bounds={"fetch window": "2 names per round trip (PREFETCH_AMOUNT set by the harness; the code is window-size generic)",
                     "foreign messages in front of the own job": "1..5 (less than, exactly, and more than whole windows)", "category": "normal list or due-delayed set"},
             functions=["connections/redis/consumer.py:_RedisConsumer.__fetch_message_name"], covers=["window-checked"], stubs=["fake Redis server"]),
+    Harness(name="H11-rabbit-paused-neighbour", scenario=h11_rabbit_paused,
+            bounds={"workers": "A (messages_limit 1, reached with a job that runs 3 s: its consumer is paused but registered) and B on one shared RabbitMQ queue",
+                    "foreign messages": "1..3, published while A waits for its job", "server": "basic.qos applied to the channel at once, or per consumer as RabbitMQ does for global=false"},
+            functions=["connections/rabbitmq/consumer.py:_RabbitConsumer.on_new_message", "connections/rabbitmq/consumer.py:_RabbitConsumer.pause"],
+            covers=["paused-neighbour"], stubs=["fake AMQP server: round-robin dispatch among consumers with prefetch room (prefetch counted per channel)"]),
     Harness(name="H11-rabbit-foreign", scenario=h11_rabbit_foreign,
             bounds={"foreign message": "live, expired (ttl run out), or carrying parameters in a format only its own service reads", "worker": "serves another topic of the shared queue"},
             functions=["connections/rabbitmq/consumer.py:_RabbitConsumer.on_new_message"], covers=["foreign-live", "foreign-expired", "foreign-foreign-parameters-format"],
